@@ -630,7 +630,7 @@ func initTopicGrp(t *Topic) error {
 	stopic, err := store.Topics.Get(t.name)
 	if err != nil {
 		return err
-	} else if stopic == nil {
+	} else if stopic == nil || stopic.State == types.StateDeleted {
 		return types.ErrTopicNotFound
 	}
 
